@@ -49,7 +49,7 @@ var errInjected = errors.New("injected read failure")
 // ---------------------------------------------------------------- cases
 
 type Ev struct {
-	Kind byte // 'D', 'Z', 'F'
+	Kind byte // 'D' data, 'Z' 0-byte read, 'F' injected error, 'E' (0, io.EOF) once -- the reader goes on afterwards
 	Data []byte
 	Gen  string // "<len>:<seed>" when Data is pseudo-random data regenerated from a seed (big blobs)
 }
@@ -114,7 +114,7 @@ func decScript(s string) []Ev {
 	var out []Ev
 	for _, t := range strings.Split(s, ",") {
 		switch {
-		case t == "Z" || t == "F":
+		case t == "Z" || t == "F" || t == "E":
 			out = append(out, Ev{Kind: t[0]})
 		case strings.HasPrefix(t, "R"):
 			f := strings.SplitN(t[1:], ":", 2)
@@ -143,11 +143,25 @@ func streamOf(s []Ev) []byte {
 	return out
 }
 
-// bytes deliverable before the first injected failure
+// the bytes the reader delivers before it first answers io.EOF
+func beforeEOF(s []Ev) []byte {
+	var out []byte
+	for _, e := range s {
+		if e.Kind == 'E' {
+			break
+		}
+		if e.Kind == 'D' {
+			out = append(out, e.Data...)
+		}
+	}
+	return out
+}
+
+// bytes deliverable before the first injected failure or EOF
 func availOf(s []Ev) int {
 	n := 0
 	for _, e := range s {
-		if e.Kind == 'F' {
+		if e.Kind == 'F' || e.Kind == 'E' {
 			break
 		}
 		n += len(e.Data)
@@ -226,7 +240,7 @@ func (c *Case) hashes() string {
 	var out []string
 	for _, p := range c.Pushes {
 		st := streamOf(p.Script)
-		lens := map[int]bool{0: true, len(st): true}
+		lens := map[int]bool{0: true, len(st): true, len(beforeEOF(p.Script)): true}
 		if c.Op == "PF" {
 			r := newReader(p)
 			for _, k := range p.Ks {
@@ -425,6 +439,9 @@ func (r *scriptReader) Read(p []byte) (int, error) {
 	case 'F':
 		r.evs = r.evs[1:]
 		return 0, errInjected
+	case 'E':
+		r.evs = r.evs[1:]
+		return 0, io.EOF
 	}
 	if len(e.Data) <= len(p) {
 		n := copy(p, e.Data)
@@ -437,6 +454,10 @@ func (r *scriptReader) Read(p []byte) (int, error) {
 			if r.evs[0].Kind == 'F' {
 				r.evs = r.evs[1:]
 				return n, errInjected
+			}
+			if r.evs[0].Kind == 'E' {
+				r.evs = r.evs[1:]
+				return n, io.EOF
 			}
 		}
 		return n, nil
@@ -510,7 +531,7 @@ var okDigest = regexp.MustCompile(`^(sha256:[a-f0-9]{64}|sha384:[a-f0-9]{96}|sha
 // the descriptor names"; "" when a Push of it may succeed.  limited: the reader is
 // cut at Size (LimitedStorage), so only the first Size bytes are looked at.
 func whyBad(p Push) string {
-	st := streamOf(p.Script)
+	st := beforeEOF(p.Script)
 	switch {
 	case p.SZ < 0:
 		return "negative-size"
@@ -575,7 +596,7 @@ func runRA(id string, c *Case) string {
 		fail(id, "size-panic", fmt.Sprintf("ReadAll panicked for Size %d: %v", p.SZ, pv), c)
 		return "PANIC"
 	}
-	st := streamOf(p.Script)
+	st := beforeEOF(p.Script)
 	if err == nil {
 		switch {
 		case !matches(b, p.DG, p.SZ):
@@ -602,7 +623,7 @@ func runCB(id string, c *Case) string {
 	r := newReader(p)
 	var out bytes.Buffer
 	err := hooks.CopyBuffer(plainWriter{&out}, source(r, c.Lim), make([]byte, c.BufSz), descOf(p))
-	st := streamOf(p.Script)
+	st := beforeEOF(p.Script)
 	if err == nil {
 		switch {
 		case p.SZ < 0:
@@ -670,7 +691,7 @@ func runVR(id string, c *Case) string {
 	vr := content.NewVerifyReader(source(r, c.Lim), descOf(p))
 	var got []byte
 	var outs []string
-	st := streamOf(p.Script)
+	st := beforeEOF(p.Script)
 	for _, op := range c.Ops {
 		if op == "v" {
 			err := vr.Verify()
@@ -964,7 +985,7 @@ func runST(id string, c *Case) string {
 		obs = append(obs, fmt.Sprintf("%s X%s F%s", res, xs, fobs))
 
 		// ---- oracle
-		st := streamOf(p.Script)
+		st := beforeEOF(p.Script)
 		why := whyBad(p)
 		tag := fmt.Sprintf("push %d/%d on %s: ", i+1, len(c.Pushes), c.Kind)
 		raw, rerr := rawFetch(e.st, d)
@@ -1156,7 +1177,7 @@ func runCC(id string, c *Case) string {
 			if why != "" {
 				fail(id, "concurrent-bad-accepted", fmt.Sprintf("concurrent push %d (%s) returned nil", i, why), c)
 			}
-		} else if why == "" && len(streamOf(p.Script)) == int(p.SZ) && availOf(p.Script) == len(streamOf(p.Script)) &&
+		} else if why == "" && len(beforeEOF(p.Script)) == int(p.SZ) && availOf(p.Script) == len(beforeEOF(p.Script)) &&
 			!hasFail(p.Script) && res != "EXISTS" && res != "DUP_NAME" {
 			fail(id, "concurrent-good-rejected", fmt.Sprintf("concurrent good push %d failed with %s", i, res), c)
 		}
@@ -1215,7 +1236,7 @@ func runPXw(id string, c *Case, limit time.Duration, retry bool) string {
 	p := c.Pushes[0]
 	d := descOf(p)
 	lim, limited := limitOf(c.Kind)
-	trailing := int64(len(streamOf(p.Script))) > p.SZ
+	trailing := int64(len(beforeEOF(p.Script))) > p.SZ
 	if pxBlocked && limited && trailing {
 		run.Count("px:skipped-after-blocked")
 		return "-"
@@ -1425,13 +1446,19 @@ func runCase(c *Case) {
 		if p.SZ > hugeSize {
 			run.Count("gen:huge-size")
 		}
+		for _, e := range p.Script {
+			if e.Kind == 'E' {
+				run.Count("gen:reader-continues-after-eof")
+				break
+			}
+		}
 		if len(streamOf(p.Script)) > 1<<20 {
 			run.Count("gen:blob>1MiB")
 		}
 		w := whyBad(p)
 		if w == "" {
 			w = "good"
-			if len(streamOf(p.Script)) > int(p.SZ) {
+			if len(beforeEOF(p.Script)) > int(p.SZ) {
 				w = "good+trailing"
 			}
 		}
@@ -1610,6 +1637,14 @@ func genPush(r *common.Rand, data []byte) Push {
 		}
 	default: // first Size bytes right, then a different tail; or a prefix-only match
 		p.Script = chunk(r, append(append([]byte(nil), stream...), stream...), zeros)
+	}
+	if r.Chance(1, 7) { // a reader for which io.EOF is not final: (0, EOF) once, then it goes on
+		at := r.Intn(len(p.Script) + 1)
+		evs := append(p.Script[:at:at], append([]Ev{{Kind: 'E'}}, p.Script[at:]...)...)
+		if r.Chance(1, 3) {
+			evs = append(evs, Ev{Kind: 'D', Data: randBytes(r, 1+r.Intn(3))})
+		}
+		p.Script = evs
 	}
 	return p
 }
@@ -2013,7 +2048,7 @@ func main() {
 		"store:mem", "store:lim", "store:oci", "store:olim", "store:file", "store:ocistore", "store:memstore",
 		"store:fileD", "store:fileC", "store:fileI", "store:fileF",
 		"input:good", "input:good+trailing", "input:bad-digest", "input:digest-mismatch", "input:negative-size", "input:short-or-failed",
-		"cw:fail:fault", "cw:short:fault", "judged:cc-membership", "gen:alias-name", "gen:huge-size", "gen:blob>1MiB", "gen:exhaustive-history", "judged:inflight"} {
+		"cw:fail:fault", "cw:short:fault", "judged:cc-membership", "gen:alias-name", "gen:huge-size", "gen:blob>1MiB", "gen:exhaustive-history", "judged:inflight", "gen:reader-continues-after-eof"} {
 		if run.Dist[k] == 0 {
 			missing = append(missing, k)
 		}
